@@ -31,6 +31,19 @@ if "MuLabels ==" in t:
         if re.search(r"\b(word|queue)\b", body):
             mul.append(lab)
     t = re.sub(r"MuLabels == \{.*?\}", lambda _: "MuLabels == {%s}" % ", ".join('"%s"' % l for l in sorted(set(mul))), t, count=1, flags=re.S)
+# generated block: label -> kind of shared operation, and the reset action of the trace specification (Init with primes)
+if "\\* BEGIN GENERATED" in t:
+    def kind(l):
+        if l in ("c0", "d0", "f0", "f1"): return "c"
+        for suf, k in (("_ld", "ld"), ("_cas", "cas"), ("_st", "st"), ("_pd", "pd"), ("_p", "p"), ("_v", "v"), ("_d", "d"), ("_r", "region"), ("_sw", "region"), ("_l", "local"), ("_lk", "lock"), ("_ul", "unlock")):
+            if l.endswith(suf): return k
+        return "none"
+    km = "KindMap == [x \\in {%s} |-> CASE %s]" % (", ".join('"%s"' % l for l in labels + ["Done"]), " [] ".join('x = "%s" -> "%s"' % (l, kind(l)) for l in labels + ["Done"]))
+    mi = re.search(r"^Init == (.*?)\n\n", t, re.S | re.M)
+    body = mi.group(1)
+    body = re.sub(r"^(\s*/\\ )(\w+) = ", lambda mm: mm.group(1) + mm.group(2) + "' = ", body, flags=re.M)
+    gen = "\\* BEGIN GENERATED (tools/mkspec.py)\n" + km + "\nResetAll == " + body.strip() + "\n\\* END GENERATED"
+    t = re.sub(r"\\\* BEGIN GENERATED.*?\\\* END GENERATED", lambda _: gen, t, count=1, flags=re.S)
 open(path, "w").write(t)
 r = subprocess.run(["tla-sany", path], capture_output=True, text=True)
 errs = [l for l in r.stdout.splitlines() if "rror" in l or "Unknown" in l]
